@@ -493,6 +493,64 @@ impl<'a> OpenResponsesSsePipe<'a> {
     }
 }
 
+/// Verification export: feed `chunks` through the real SSE pipe exactly as the receive loop of
+/// `stream_openresponses_request` does (push each chunk until [DONE], else `finish`). Returns the
+/// emitted frames, whether the terminal marker was seen, the next seq and the collected calls.
+#[cfg(rip_verif)]
+pub async fn verif_sse_pipe_run(
+    event_log: &EventLog,
+    session_id: &str,
+    seq_start: u64,
+    chunks: &[Vec<u8>],
+    stateless_history: bool,
+) -> (Vec<Event>, bool, u64, Vec<Value>) {
+    let validation = if stateless_history {
+        ValidationOptions::compat_missing_item_ids()
+    } else {
+        ValidationOptions::strict()
+    };
+    let (sender, _rx) = broadcast::channel::<Event>(16);
+    let buffer: Arc<Mutex<Vec<Event>>> = Arc::new(Mutex::new(Vec::new()));
+    let mut seq = seq_start;
+    let mut collector = ToolCallCollector::default();
+    let saw_done = {
+        let sink = EventSink {
+            sender: &sender,
+            buffer: &buffer,
+            event_log,
+        };
+        let mut pipe =
+            OpenResponsesSsePipe::new(session_id, &mut seq, sink, Some(&mut collector), validation);
+        let mut utf8_buf = Vec::new();
+        let mut saw_done = false;
+        for chunk in chunks {
+            saw_done = pipe.push_bytes(&mut utf8_buf, chunk).await;
+            if saw_done {
+                break;
+            }
+        }
+        if !saw_done {
+            let _ = pipe.finish().await;
+        }
+        saw_done
+    };
+    let calls = collector
+        .drain_function_calls()
+        .into_iter()
+        .map(|call| {
+            serde_json::json!({
+                "output_index": call.output_index,
+                "call_id": call.call_id,
+                "item_id": call.item_id,
+                "name": call.name,
+                "arguments": call.arguments,
+            })
+        })
+        .collect();
+    let frames = buffer.lock().await.clone();
+    (frames, saw_done, seq, calls)
+}
+
 #[derive(Debug, Clone)]
 struct FunctionCallItem {
     output_index: u64,
